@@ -557,6 +557,10 @@ class Instance:
             if off == 4:                     # data_end
                 return self.packet.end
             return self.packet.base          # data, data_meta (no metadata)
+        if off == 20:
+            # egress_ifindex: only for programs attached to a devmap
+            # (expected_attach_type BPF_XDP_DEVMAP), else the verifier refuses
+            self._fault("invalid context access: egress_ifindex")
         return int.from_bytes(self.ctx.data[off:off + 4], "little")
 
     # ---- the instruction set --------------------------------------------
